@@ -2,7 +2,7 @@
 from .. import normcheck, normflow
 
 THEOREMS = ["C05_keeps", "C05_keeps_meta_needs", "C05_appends", "C05_completion_value", "C05_no_pooling",
-            "C05_no_use_no_completion", "C05_sort_perm", "C05_sort_stable"]
+            "C05_no_use_no_completion", "C05_sort_perm", "C05_sort_stable", "C05_completion_twice_changes_nothing"]
 
 
 def run(tier, seed):
